@@ -54,7 +54,10 @@ static const char *EPW[] = { "swprintf_s", "vswprintf_s", "snwprintf_s", "vsnwpr
 #define NEP 14
 static char cbuf[8192]; static wchar_t wbuf[2048];
 static FILE *sink;                       /* memory stream for stream output */
-static size_t g_cdmax = 4096, g_wdmax = 1024; static int g_tiny;     /* dmax handed to the buffer entry points; the truncating ones are run a second time with dmax 3 */
+static size_t g_cdmax = 4096, g_wdmax = 1024; static int g_tiny, g_nulld;     /* g_nulld: the buffer entry points get a null dest and dmax 0 (the length-query form of the C library) */
+#define CBUF (g_nulld ? (char *)0 : cbuf)
+#define WBUF (g_nulld ? (wchar_t *)0 : wbuf)
+//     /* dmax handed to the buffer entry points; the truncating ones are run a second time with dmax 3 */
 static FILE *osink; static int g_other;    /* a stream of the other orientation (an earlier write of the other family has fixed it): history for the stream entry points */
 static const char *epname(int wide, int ep);
 static FILE *win, *win2;                 /* wide-oriented input streams (real temp files) */
@@ -65,13 +68,13 @@ static char *sink_mem; static size_t sink_len;
 static int vcall(int ep, int wide, const void *fmt, ...) {
     va_list ap; va_start(ap, fmt); int r = 0;
     if (!wide) switch (ep) {
-        case 1: r = p_vsprintf(cbuf, g_cdmax, BOSU, fmt, ap); break; case 3: r = p_vsnprintf(cbuf, g_cdmax, BOSU, fmt, ap); break;
+        case 1: r = p_vsprintf(CBUF, g_cdmax, BOSU, fmt, ap); break; case 3: r = p_vsnprintf(CBUF, g_cdmax, BOSU, fmt, ap); break;
         case 5: r = p_vprintf(fmt, ap); break; case 7: r = p_vfprintf(sink, fmt, ap); break;
         case 9: r = p_vsscanf("7 7 7 7", fmt, ap); break;
         case 11: { FILE *f = fmemopen((void *)"7 7 7 7", 7, "r"); r = p_vfscanf(f, fmt, ap); fclose(f); break; }
         case 13: r = p_vscanf(fmt, ap); break;
     } else switch (ep) {
-        case 1: r = p_vswprintf(wbuf, g_wdmax, BOSU, fmt, ap); break; case 3: r = p_vsnwprintf(wbuf, g_wdmax, BOSU, fmt, ap); break;
+        case 1: r = p_vswprintf(WBUF, g_wdmax, BOSU, fmt, ap); break; case 3: r = p_vsnwprintf(WBUF, g_wdmax, BOSU, fmt, ap); break;
         case 5: r = p_vwprintf(fmt, ap); break; case 7: r = p_vfwprintf(sink, fmt, ap); break;
         case 9: r = p_vswscanf(L"7 7 7 7", fmt, ap); break;
         case 11: rewind(win); r = p_vfwscanf(win, fmt, ap); break;
@@ -82,13 +85,13 @@ static int vcall(int ep, int wide, const void *fmt, ...) {
 static int call(int ep, int wide, const void *fmt) {
     if (ep & 1) return vcall(ep, wide, fmt, ARGS);
     if (!wide) switch (ep) {
-        case 0: return p_sprintf(cbuf, g_cdmax, BOSU, fmt, ARGS); case 2: return p_snprintf(cbuf, g_cdmax, BOSU, fmt, ARGS);
+        case 0: return p_sprintf(CBUF, g_cdmax, BOSU, fmt, ARGS); case 2: return p_snprintf(CBUF, g_cdmax, BOSU, fmt, ARGS);
         case 4: return p_printf(fmt, ARGS); case 6: return p_fprintf(sink, fmt, ARGS);
         case 8: return p_sscanf("7 7 7 7", fmt, ARGS);
         case 10: { FILE *f = fmemopen((void *)"7 7 7 7", 7, "r"); int r = p_fscanf(f, fmt, ARGS); fclose(f); return r; }
         case 12: return p_scanf(fmt, ARGS);
     } else switch (ep) {
-        case 0: return p_swprintf(wbuf, g_wdmax, BOSU, fmt, ARGS); case 2: return p_snwprintf(wbuf, g_wdmax, BOSU, fmt, ARGS);
+        case 0: return p_swprintf(WBUF, g_wdmax, BOSU, fmt, ARGS); case 2: return p_snwprintf(WBUF, g_wdmax, BOSU, fmt, ARGS);
         case 4: return p_wprintf(fmt, ARGS); case 6: return p_fwprintf(sink, fmt, ARGS);
         case 8: return p_swscanf(L"7 7 7 7", fmt, ARGS);
         case 10: rewind(win); return p_fwscanf(win, fmt, ARGS);
@@ -184,6 +187,7 @@ static void one(int wide, int ep, const char *fmt) {
     for (int i = 0; i < NARG; i++) {
         if (!memcmp(sent + 64 * i, sent0 + 64 * i, 64)) continue;
         if (!scan) { report(epn, "stored-through-argument", p.has_n ? ncls(fmt, b) : "no-n-in-format", cs); return; }
+        if (!strpbrk(fmt, "diouxXeEfFgGaAcsSCp[")) { report(epn, "stored-through-n-argument", "format-without-any-other-conversion", cs); return; }   /* nothing but an n conversion can have stored, however the directive is spelt */
         if (i >= p.first_invalid_slot) continue;                 /* after an unparsable directive: not judged */
         if (p.kind[i] == 2) { report(epn, "stored-through-n-argument", ncls(fmt, b), cs); return; }
         if (p.kind[i] != 1 && p.valid) { report(epn, "stored-through-unused-argument", p.has_n ? ncls(fmt, b) : "no-n-in-format", cs); return; }
@@ -196,8 +200,9 @@ static void one(int wide, int ep, const char *fmt) {
     }
 }
 
-static const char *epname(int wide, int ep) { static char b[64]; if (g_tiny) { snprintf(b, sizeof b, "%s@dmax3", (wide ? EPW : EPN)[ep]); return b; } if (!g_other) return (wide ? EPW : EPN)[ep]; snprintf(b, sizeof b, "%s@%s-oriented-stream", (wide ? EPW : EPN)[ep], wide ? "byte" : "wide"); return b; }
+static const char *epname(int wide, int ep) { static char b[64]; if (g_nulld) { snprintf(b, sizeof b, "%s@nulldest", (wide ? EPW : EPN)[ep]); return b; } if (g_tiny) { snprintf(b, sizeof b, "%s@dmax3", (wide ? EPW : EPN)[ep]); return b; } if (!g_other) return (wide ? EPW : EPN)[ep]; snprintf(b, sizeof b, "%s@%s-oriented-stream", (wide ? EPW : EPN)[ep], wide ? "byte" : "wide"); return b; }
 static void one_tiny(int wide, int ep, const char *fmt) { g_tiny = 1; g_cdmax = g_wdmax = 3; one(wide, ep, fmt); g_cdmax = 4096; g_wdmax = 1024; g_tiny = 0; }
+static void one_nulld(int wide, int ep, const char *fmt) { g_nulld = 1; g_cdmax = g_wdmax = 0; one(wide, ep, fmt); g_cdmax = 4096; g_wdmax = 1024; g_nulld = 0; }
 static void one_other(int wide, int ep, const char *fmt) { FILE *k = sink; sink = osink; g_other = 1; one(wide, ep, fmt); g_other = 0; sink = k; }
 
 int main(int argc, char **argv) {
@@ -241,7 +246,7 @@ int main(int argc, char **argv) {
     { static char *om; static size_t ol; static wchar_t *wom; if (wide) { osink = open_memstream(&om, &ol); fputc('x', osink); } else { osink = open_wmemstream(&wom, &ol); fputwc(L'x', osink); } }
     struct sigaction sa; memset(&sa, 0, sizeof sa); sa.sa_sigaction = on_sig; sa.sa_flags = SA_NODEFER | SA_SIGINFO; sigaction(SIGSEGV, &sa, NULL); sigaction(SIGABRT, &sa, NULL); sigaction(SIGBUS, &sa, NULL); sigaction(SIGFPE, &sa, NULL);
     if (replay) {
-        int ep = -1, tiny = strstr(argv[3], "@dmax3") != NULL, other = !tiny && strchr(argv[3], '@') != NULL; char epb[64]; snprintf(epb, sizeof epb, "%.*s", (int)strcspn(argv[3], "@"), argv[3]);
+        int ep = -1, tiny = strstr(argv[3], "@dmax3") != NULL, nulld = strstr(argv[3], "@nulldest") != NULL, other = !tiny && !nulld && strchr(argv[3], '@') != NULL; char epb[64]; snprintf(epb, sizeof epb, "%.*s", (int)strcspn(argv[3], "@"), argv[3]);
         for (int i = 0; i < NEP; i++) if (!strcmp((wide ? EPW : EPN)[i], epb)) ep = i;
         static char fmt[5200]; int n = 0; const char *enc = argv[4];
         if (!strncmp(enc, "pad", 3)) { long np = atol(enc + 3); for (; n < np; n++) fmt[n] = 'x'; enc = strchr(enc, ':') + 1; }
@@ -249,9 +254,9 @@ int main(int argc, char **argv) {
         if (ep < 0) return 2;
         /* a case is replayed as the history it was found in: an accepted, conversion-free format of the same length (hence at the
          * same address) goes through the same entry point first, so that a verdict cached from an earlier call shows again */
-        { static char neutral[5200]; memset(neutral, 'x', n); neutral[n] = 0; if (tiny) one_tiny(wide, ep, neutral); else if (other) one_other(wide, ep, neutral); else one(wide, ep, neutral); nsig = 0; n_viol = 0; }
+        { static char neutral[5200]; memset(neutral, 'x', n); neutral[n] = 0; if (nulld) one_nulld(wide, ep, neutral); else if (tiny) one_tiny(wide, ep, neutral); else if (other) one_other(wide, ep, neutral); else one(wide, ep, neutral); nsig = 0; n_viol = 0; }
         verbose = 1; FILE *keep = stdout; (void)keep;
-        if (tiny) one_tiny(wide, ep, fmt); else if (other) one_other(wide, ep, fmt); else one(wide, ep, fmt);
+        if (nulld) one_nulld(wide, ep, fmt); else if (tiny) one_tiny(wide, ep, fmt); else if (other) one_other(wide, ep, fmt); else one(wide, ep, fmt);
         if (nsig) { fprintf(out, "VERDICT violation %s\n", sigs[0]); return 1; }
         fprintf(out, "VERDICT ok\n"); return 0;
     }
@@ -266,6 +271,7 @@ int main(int argc, char **argv) {
             nformats++;
             for (int ep = 0; ep < NEP; ep++) one(wide, ep, fmt);
             one_other(wide, 6, fmt); one_other(wide, 7, fmt);
+            for (int ep = 0; ep < 4; ep++) one_nulld(wide, ep, fmt);       /* the four buffer entry points with a null dest and dmax 0 */
             one_tiny(wide, 2, fmt); one_tiny(wide, 3, fmt);                /* the truncating entry points with a result that does not fit */            /* fprintf_s/vfprintf_s (fwprintf_s/vfwprintf_s) on a stream of the other orientation */
             if ((nformats & 255) == 0) { rewind(sink); fflush(stdout); rewind(stdout); rewind(osink); }
         }
